@@ -79,6 +79,12 @@ def genRepeat (g : Nat → GenState → GenM (List Instr × GenState)) :
     let (cs, st2) ← genRepeat g n (off + c.length) st1
     pure (c ++ cs, st2)
 
+/-- `forgetCaptures` in `generateLoop` (fix 60824b3): before each copy of a loop body is generated, the
+captures (`-1` targets) that were not in scope when the loop was entered are dropped, so that every
+unrolled copy may declare the body's captures again -/
+def forgetCaptures (outer : List (String × Option Nat)) (st : GenState) : GenState :=
+  { st with variables := st.variables.filter (fun kv => kv.2.isSome || (lookup outer kv.1).isSome) }
+
 /-- `generateSearchInstruction` and its callees. -/
 def gen : Expr → Nat → GenState → GenM (List Instr × GenState)
   | .empty, _, st => .ok ([], st)
@@ -102,10 +108,11 @@ def gen : Expr → Nat → GenState → GenM (List Instr × GenState)
   | .loop mn mx fewest name body, off, st => do
     -- generateLoop
     let unroll := decide (mn > 0) && name == ""
-    let (pre, st1) ← if unroll then genRepeat (gen body) mn off st else pure ([], st)
+    let (pre, st1) ← if unroll then genRepeat (fun o s => gen body o (forgetCaptures st.variables s)) mn off st
+                     else pure ([], st)
     let cur := off + pre.length
     if (mn : Int) == mx && name == "" then pure (pre, st1) else
-    let (cb, st2) ← gen body (cur + 1) st1
+    let (cb, st2) ← gen body (cur + 1) (forgetCaptures st.variables st1)
     let newMin := if unroll then 0 else mn
     let newMax := if mx > 0 && name == "" then mx - mn else mx
     let id := st2.nextId
